@@ -897,7 +897,13 @@ static Token *include_file(Token *tok, char *path, Token *filename_tok) {
 // Read #line arguments
 static void read_line_marker(Token **rest, Token *tok) {
   Token *start = tok;
-  tok = preprocess(copy_line(rest, tok));
+
+  // Expand macros in the operands only. preprocess() is the entry point
+  // for a whole translation unit: it also insists that no conditional
+  // is open, so `#line` inside an `#if` group was rejected as
+  // "unterminated conditional directive".
+  tok = preprocess2(copy_line(rest, tok));
+  convert_pp_tokens(tok);
 
   if (tok->kind != TK_NUM || tok->ty->kind != TY_INT)
     error_tok(tok, "invalid line marker");
